@@ -57,6 +57,8 @@ OpsViol(r) ==
      \cup (IF NoEmpty(ops) /\ Alternate(ops) /\ (valid => Latest(r.old, r.new, ops))
            THEN {} ELSE {"normal"})
      \cup (IF ~PositionsExact(r.os, r.ns, ops) THEN {"exact"} ELSE {})
+     \* the accessors old_range() / new_range() / tag() / as_tag_tuple() show the same coordinates
+     \cup (IF "acc" \in DOMAIN r /\ (r.acc # ops \/ r.acc2 # ops) THEN {"accessors"} ELSE {})
      \cup (IF r.rep_panic \/ ~PositionsExact(r.os, r.ns, r.ops_rep) THEN {"exact_rep"} ELSE {})
      \cup (IF anchOk /\ nodl /\ r.alg = "patience"
               /\ CoveredUnique(r.old, r.new, r.os, r.oe, r.ns, r.ne, ops) < AnchorOptimum(oldR, newR)
